@@ -84,7 +84,7 @@ func c05Notify(prefix []int, mode string, pad int) explore.Outcome {
 		vsched.SetBranching(false)
 		w, err := c05New(mode, 2, true)
 		if err != nil {
-			viol = append(viol, V("harness", "%v", err))
+			viol = append(viol, V("setup-handshake-fails", "setting the scenario up with well-behaved peers fails: %v", err))
 			return
 		}
 		vsched.SetBranching(true)
@@ -138,7 +138,7 @@ func c05Backlog(prefix []int, mode string, n int) explore.Outcome {
 		vsched.SetBranching(false)
 		w, err := c05New(mode, 2, true)
 		if err != nil {
-			viol = append(viol, V("harness", "%v", err))
+			viol = append(viol, V("setup-handshake-fails", "setting the scenario up with well-behaved peers fails: %v", err))
 			return
 		}
 		w.peers[0].Stream.Stall(true)
@@ -251,6 +251,9 @@ func rootsOf(r *mcp.ListRootsResult) string {
 // c05Roots: ListRoots in session A; A answers with its roots; adversarial B posts an answer with
 // the same request id (it can guess it: ids are small integers from a server-wide counter).
 func c05Roots(prefix []int, mode string, variant string) explore.Outcome {
+	if variant == "with-notification" {
+		defer nonAtomicWriters()() // request and notification share A's stream: concurrent use of its ResponseWriter is reported
+	}
 	var viol []explore.Violation
 	obs := &hx.Log{}
 	k := func(s string) string { return s + ":" + mode + ":" + variant }
@@ -258,7 +261,7 @@ func c05Roots(prefix []int, mode string, variant string) explore.Outcome {
 		vsched.SetBranching(false)
 		w, err := c05New(mode, 2, true)
 		if err != nil {
-			viol = append(viol, V("harness", "%v", err))
+			viol = append(viol, V("setup-handshake-fails", "setting the scenario up with well-behaved peers fails: %v", err))
 			return
 		}
 		vsched.SetBranching(true)
@@ -292,6 +295,34 @@ func c05Roots(prefix []int, mode string, variant string) explore.Outcome {
 				viol = append(viol, V(k("foreign-answer-accepted"), "ListRoots for session A returned %q: an answer posted by session B with the same request id was accepted", rootsOf(got)))
 			}
 			obs.Add("roots=%s", rootsOf(got))
+		case "with-notification":
+			// a server-issued request and two notifications to the same session at the same time
+			var got *mcp.ListRootsResult
+			var gerr, e1, e2 error
+			done := &hx.Flag{}
+			vsched.Go("list-roots-A", func() { got, gerr = w.listRoots(context.Background(), 0); done.Set() })
+			vsched.Go("send-A", func() { e1 = w.send(0, "n1", 0); e2 = w.send(0, "n2", 0) })
+			vsched.Go("peer-A", func() {
+				id, ok := A.Await("roots/list", func(f string) bool { return strings.Contains(f, `"roots/list"`) })
+				if ok {
+					answer(A, string(rawIDOf(id)), "file:///A")
+				}
+			})
+			vsched.Quiesce()
+			a := w.notes(0)
+			switch {
+			case !done.Get():
+				viol = append(viol, V(k("roots-hangs"), "ListRoots(A) did not return although A answers what it receives; blocked: %v; A's stream: %v", vsched.LiveThreads(), A.StreamFrames()))
+			case gerr != nil || rootsOf(got) != "file:///A":
+				viol = append(viol, V(k("roots-fails"), "ListRoots(A) concurrent with notifications: %q %v", rootsOf(got), gerr))
+			}
+			if e1 != nil || e2 != nil || strings.Join(a, ",") != "n1,n2" {
+				viol = append(viol, V(k("order-or-count"), "notifications sent while a request was being written: errors %v %v, A's stream carries %v (want n1,n2)", e1, e2, a))
+			}
+			if len(w.notes(1)) != 0 {
+				viol = append(viol, V(k("leak-to-other-session"), "session B's stream carries %v", w.notes(1)))
+			}
+			obs.Add("roots=%s notes=%v", rootsOf(got), a)
 		case "two-sessions":
 			var ga, gb *mcp.ListRootsResult
 			var ea, eb error
@@ -365,7 +396,7 @@ func c05Endings(tier string, i int) CaseResult {
 			r.Start()
 			rp = NewRawPeer(r)
 			if err := rp.Handshake(); err != nil {
-				viol = append(viol, V("harness", "%v", err))
+				viol = append(viol, V("setup-handshake-fails", "setting the scenario up with well-behaved peers fails: %v", err))
 				return
 			}
 			rp.Call(`{"jsonrpc":"2.0","id":5,"method":"tools/call","params":{"name":"grab"}}`, "5")
@@ -375,7 +406,7 @@ func c05Endings(tier string, i int) CaseResult {
 		} else {
 			w, err := c05New(mode, 1, true)
 			if err != nil {
-				viol = append(viol, V("harness", "%v", err))
+				viol = append(viol, V("setup-handshake-fails", "setting the scenario up with well-behaved peers fails: %v", err))
 				return
 			}
 			r, rp = w.r, w.peers[0]
@@ -523,7 +554,7 @@ func c05Replay(h []c05Ev) (viol []explore.Violation, m c05M, broken string) {
 	res := vsched.Run(vsched.Config{}, func() {
 		w, err := c05New("ss", 3, false)
 		if err != nil {
-			viol = append(viol, V("harness", "%v", err))
+			viol = append(viol, V("setup-handshake-fails", "setting the scenario up with well-behaved peers fails: %v", err))
 			return
 		}
 		hs := ""
@@ -614,7 +645,7 @@ func init() {
 			RegisterScenario(&Scenario{Name: fmt.Sprintf("c05/notify/%s/pad%d", mode, pad), Run: func(p []int, m []vsched.ChoicePoint) explore.Outcome { return c05Notify(p, mode, pad) },
 				Doc: "two sessions with open streams: Send(A,a1);Send(A,a2) || Broadcast || Filtered(only B)"})
 		}
-		for _, v := range []string{"foreign-answer", "two-sessions"} {
+		for _, v := range []string{"foreign-answer", "two-sessions", "with-notification"} {
 			v := v
 			RegisterScenario(&Scenario{Name: fmt.Sprintf("c05/roots/%s/%s", mode, v), Run: func(p []int, m []vsched.ChoicePoint) explore.Outcome { return c05Roots(p, mode, v) },
 				Doc: "server-issued roots/list: " + v})
@@ -640,7 +671,7 @@ func init() {
 		for _, mode := range []string{"ss", "ls"} {
 			c.DFSBoth(fmt.Sprintf("c05/notify/%s/pad0", mode), explore.Bounds{Preempt: c.Pick(2, 4), Dev: 1, MaxExec: c.Pick(6000, 300000)}, 1)
 			c.DFS(fmt.Sprintf("c05/notify/%s/pad65537", mode), explore.Bounds{Preempt: c.Pick(1, 2), Dev: 1, POR: true, MaxExec: c.Pick(3000, 100000)})
-			for _, v := range []string{"foreign-answer", "two-sessions"} {
+			for _, v := range []string{"foreign-answer", "two-sessions", "with-notification"} {
 				c.DFSBoth(fmt.Sprintf("c05/roots/%s/%s", mode, v), explore.Bounds{Preempt: c.Pick(2, 3), Dev: 1, MaxExec: c.Pick(6000, 300000)}, 1)
 			}
 		}
